@@ -124,6 +124,11 @@ class SymFactory:
         if not isinstance(cls, ClassInfo):
             raise Unsupported('g.new needs a repository class')
         o = SObj(cls, False)
+        if ctor == () and not fields:
+            # the object a caller gets from `Cls()`: whatever the (current) constructor sets up is part of the input's invariant
+            init = cls.find_method('__init__')
+            if init is not None:
+                self.I.call_function(init, [o], {})
         for k, v in fields.items():
             o.fields[k] = v
         return o
